@@ -38,6 +38,7 @@ type unit struct {
 }
 
 type sheetgen struct {
+	deep int // values with deeply nested brackets
 	t      *rapid.T
 	src    strings.Builder
 	units  []unit
@@ -281,6 +282,25 @@ func (g *sheetgen) value() []piece {
 	}
 	if ps[0].tt == css.CommaToken || ps[0].text == "/" {
 		ps = ps[1:]
+	}
+	if rapid.IntRange(0, 39).Draw(t, "deepvalue") == 0 {
+		// brackets nested around the sizes of small counters: a semicolon and braces-free tokens deep inside still belong
+		// to the value
+		k := rapid.SampledFrom([]int{15, 16, 17, 127, 128, 129, 254, 255, 256, 257, 300}).Draw(t, "depth")
+		open, close := piece{css.LeftParenthesisToken, "("}, piece{css.RightParenthesisToken, ")"}
+		if rapid.Bool().Draw(t, "squaredeep") {
+			open, close = piece{css.LeftBracketToken, "["}, piece{css.RightBracketToken, "]"}
+		}
+		ps = append(ps, piece{css.FunctionToken, "calc("})
+		for i := 0; i < k; i++ {
+			ps = append(ps, open)
+		}
+		ps = append(ps, piece{css.NumberToken, "1"}, piece{css.SemicolonToken, ";"}, piece{css.IdentToken, ident(t)})
+		for i := 0; i < k; i++ {
+			ps = append(ps, close)
+		}
+		ps = append(ps, piece{css.RightParenthesisToken, ")"})
+		g.deep++
 	}
 	if rapid.IntRange(0, 4).Draw(t, "important") == 0 {
 		ps = append(ps, piece{css.DelimToken, "!"}, piece{css.IdentToken, randCase(t, "important")})
